@@ -41,6 +41,16 @@ class TruthyUnk(Unk):
         self.truthy = truthy
 
 
+class Rec(Unk):
+    """an object built by a constructor call whose keyword arguments are modelled as its fields (rule-supplied table:
+    PEval(records={'FeatureLocation', ...})): attribute reads return the argument value"""
+    __slots__ = ('fields',)
+
+    def __init__(self, text, fields):
+        Unk.__init__(self, text)
+        self.fields = fields
+
+
 class Hole:
     """a hole of a string template: the (unknown) value formatted into the string, with its format spec"""
     __slots__ = ('value', 'spec')
@@ -166,7 +176,7 @@ class _State:
 
 
 class PEval:
-    def __init__(self, resolve_const: Callable[[ast.AST], Any] = None, assume: Dict[str, bool] = None, record: Tuple[str, ...] = (), unroll: bool = False,
+    def __init__(self, resolve_const: Callable[[ast.AST], Any] = None, assume: Dict[str, bool] = None, record: Tuple[str, ...] = (), unroll: bool = False, records=(),
                  split_unknown=True):
         """resolve_const(expr) -> python value or raises KeyError: module-level / imported constants
         assume: canonical test text (ast.unparse of the test with env substituted) -> forced truth
@@ -176,6 +186,7 @@ class PEval:
         self.record = set(record)
         self.split_unknown = split_unknown
         self.unroll = unroll
+        self.records = set(records)
         self.n_out = 0
 
     # ------------------------------------------------------------------ expressions
@@ -191,6 +202,8 @@ class PEval:
                 return env[t]
             if isinstance(e, ast.Attribute):
                 base = self.ev(e.value, st)
+                if isinstance(base, Rec) and e.attr in base.fields:
+                    return base.fields[e.attr]
                 if not isinstance(base, Unk) and known(base):
                     return Unk(f"{show(base)}.{e.attr}")
                 if self.resolve_const is not None:
@@ -515,6 +528,8 @@ class PEval:
             if tn in m:
                 return isinstance(args[0], m[tn])
         fn_t = ast.unparse(f) if not isinstance(f, ast.Attribute) else f"{show(self.ev(f.value, st))}.{nm}"
+        if nm in self.records and not args and not starred and kwargs:
+            return Rec(f"{fn_t}({', '.join(f'{k}={show(v)}' for k, v in kwargs.items())})", dict(kwargs))
         return Unk(f"{fn_t}({', '.join([show(a) for a in args] + (['*...'] if starred else []) + [f'{k}={show(v)}' for k, v in kwargs.items()])})")
 
     # ------------------------------------------------------------------ statements
